@@ -209,19 +209,55 @@ func (ar armRule) sameRow() {
 
 // unwrapCopy strips sanitising copies (strings.Clone, string(bytes)) from a stored value.
 func unwrapCopy(v ssa.Value) ssa.Value {
-	for {
-		v = strip(v)
+	v, _ = unwrapCopyE(v, nil)
+	return v
+}
+
+// inlineVal follows a value through conversions, single-assignment locals, bound parameters and —
+// when it is the single result of a helper with one return — into the helper, binding the helper's
+// parameters to the arguments of the call.
+func inlineVal(v ssa.Value, env *venv) (ssa.Value, *venv) {
+	for i := 0; i < 6; i++ {
+		v, env = normE(v, env, false)
+		c, ok := v.(*ssa.Call)
+		if !ok {
+			return v, env
+		}
+		sc := c.Call.StaticCallee()
+		if sc == nil || !isHelper(sc) {
+			return v, env
+		}
+		o := originOf(sc)
+		rets := returnsOf(o)
+		if len(rets) != 1 || len(rets[0].Results) != 1 {
+			return v, env
+		}
+		ne := &venv{bind: map[*ssa.Parameter]ssa.Value{}, outer: env}
+		for j, par := range o.Params {
+			if j < len(c.Call.Args) {
+				ne.bind[par] = c.Call.Args[j]
+			}
+		}
+		v, env = rets[0].Results[0], ne
+	}
+	return v, env
+}
+
+func unwrapCopyE(v ssa.Value, env *venv) (ssa.Value, *venv) {
+	for i := 0; i < 8; i++ {
+		v, env = inlineVal(v, env)
 		c, ok := v.(*ssa.Call)
 		if ok && calleeIs(&c.Call, "strings.Clone") {
 			v = c.Call.Args[0]
 			continue
 		}
-		return v
+		return v, env
 	}
+	return v, env
 }
 
 // mergeFlow: in the Merge arm the value stored is swap(merge(old, delta)) with old loaded from
-// the element that is stored and delta read from the reader.
+// the element that is stored and delta read from the reader (each step may sit in a helper).
 func (ar armRule) mergeFlow() {
 	key := ar.b.Name + "/Merge/rmw"
 	stores := ar.b.Loop.May(opMerge, "value-store")
@@ -237,12 +273,14 @@ func (ar armRule) mergeFlow() {
 	}
 	st := exclusive[0]
 	pos := ar.p.InstrPos(st.Ins)
-	sw, ok := unwrapCopy(st.Val).(*ssa.Call)
+	sv, senv := unwrapCopyE(st.Val, nil)
+	sw, ok := sv.(*ssa.Call)
 	if !ok || sw.Call.StaticCallee() == nil || !strings.HasPrefix(sw.Call.StaticCallee().Name(), "Swap") || !isNamed(sw.Call.StaticCallee().Signature.Recv().Type(), CommitPath, "Reader") {
 		ar.h.Bad(key, pos, "the value stored by the Merge arm is not the result of Reader.Swap* (the delta in the buffer is not replaced by the merged value)")
 		return
 	}
-	mg, ok := strip(sw.Call.Args[1]).(*ssa.Call)
+	mv, menv := inlineVal(sw.Call.Args[1], senv)
+	mg, ok := mv.(*ssa.Call)
 	if !ok || mg.Call.StaticCallee() != nil {
 		ar.h.Bad(key, pos, "the value swapped into the buffer is not the result of the column's merge function")
 		return
@@ -257,15 +295,18 @@ func (ar armRule) mergeFlow() {
 	}
 	// old value: load of the same element
 	oldOK := false
-	if ld, ok := strip(mg.Call.Args[0]).(*ssa.UnOp); ok && ld.Op == token.MUL {
+	ov, oenv := inlineVal(mg.Call.Args[0], menv)
+	if ld, ok := ov.(*ssa.UnOp); ok && ld.Op == token.MUL {
 		if ia, ok := ld.X.(*ssa.IndexAddr); ok {
-			sia := st.Ins.(*ssa.Store).Addr.(*ssa.IndexAddr)
-			oldOK = sameExpr(ia.X, sia.X) && sameExpr(ia.Index, sia.Index)
+			if sia, isIA := st.Ins.(*ssa.Store).Addr.(*ssa.IndexAddr); isIA {
+				oldOK = sameE(ia.X, oenv, sia.X, nil, 0) && sameE(ia.Index, oenv, sia.Index, nil, 0)
+			}
 		}
 	}
 	// delta: a value read from the reader
 	deltaOK := false
-	if dc, ok := strip(mg.Call.Args[1]).(*ssa.Call); ok {
+	dv, _ := inlineVal(mg.Call.Args[1], menv)
+	if dc, ok := dv.(*ssa.Call); ok {
 		if sc := dc.Call.StaticCallee(); sc != nil && sc.Signature.Recv() != nil && isNamed(sc.Signature.Recv().Type(), CommitPath, "Reader") && !strings.HasPrefix(sc.Name(), "Swap") {
 			deltaOK = true
 		}
